@@ -89,13 +89,15 @@ class Ctx:
         else:
             self.obls.append(vc.Obl(name, goal, pre, kind, exit, props, "valid", note))
 
-    def cover(self, name, cond, exit=None, props=None):
-        pre = list(self.assumes) + ([exit.cond] if exit is not None else [])
+    def cover(self, name, cond, exit=None, props=None, hint=None):
+        """reachability: pre ∧ exit ∧ cond must be satisfiable.  hint: extra constraints that pin a witness region (a cover that is
+        satisfiable under the hint is satisfiable), used where the general query is hard non-linear arithmetic"""
+        pre = list(self.assumes) + ([exit.cond] if exit is not None else []) + list(hint or [])
         self.obls.append(vc.Obl(name, NOT(cond), pre, "cover", exit, props or self.unit.props, "invalid"))
 
-    def canary(self, name, goal, exit=None, props=None):
-        """a deliberately false clause: the engine must refute it"""
-        pre = list(self.assumes) + ([exit.cond] if exit is not None else [])
+    def canary(self, name, goal, exit=None, props=None, hint=None):
+        """a deliberately false clause: the engine must refute it (hint: pins a witness region for hard arithmetic)"""
+        pre = list(self.assumes) + ([exit.cond] if exit is not None else []) + list(hint or [])
         self.obls.append(vc.Obl(name, goal, pre, "canary", exit, props or self.unit.props, "invalid"))
 
     def for_exits(self, exits, kind=None, exc=None):
